@@ -277,6 +277,8 @@ type shape struct {
 	slices      int
 	relations   map[string]bool
 	beforeStart bool // structural predicate of C13-K1 holds for this case
+	// the same predicate, evaluated for the window of the repeated query that failed with errBeforeStart
+	followBeforeStart bool
 }
 
 func slicesOf(reqs []fakeprom.RangeRequest) []fakeprom.RangeRequest {
@@ -534,8 +536,13 @@ func checkHTTP(c Case) (sh shape, err error) {
 	if err != nil {
 		return sh, err
 	}
+	var deferred error // a C13-K1 failure of the first query does not stop the repeated queries from being judged
 	if err := judge(c, want, spansOf(res.ranges), own); err != nil {
-		return sh, fmt.Errorf("start=%d end=%d step=%ds, %d slice(s): %w", c.Start, c.End, c.Step, sh.slices, err)
+		err = fmt.Errorf("start=%d end=%d step=%ds, %d slice(s): %w", c.Start, c.End, c.Step, sh.slices, err)
+		if !errors.Is(err, errBeforeStart) || !sh.beforeStart {
+			return sh, err
+		}
+		deferred = err
 	}
 	// repeated / shifted queries on the same client: same oracle, the grid phase comes from the whole request log
 	// (slices served from the client's cache leave no request)
@@ -547,14 +554,21 @@ func checkHTTP(c Case) (sh shape, err error) {
 			return sh, err
 		}
 		if err := judge(fc, want, spansOf(f.ranges), res.reqs); err != nil {
-			if errors.Is(err, errBeforeStart) && !presentBeforeStart(fc, res.srv, res.reqs) {
+			if errors.Is(err, errBeforeStart) {
+				if presentBeforeStart(fc, res.srv, res.reqs) {
+					sh.followBeforeStart = true // C13-K1's predicate holds for the window of this query
+					if deferred == nil {
+						deferred = fmt.Errorf("query #%d on the same client (window shifted by %d step(s)): %w", i+2, c.Shifts[i], err)
+					}
+					continue
+				}
 				err = fmt.Errorf("(class predicate does not hold) %v", err)
 			}
 			return sh, fmt.Errorf("query #%d on the same client (window shifted by %d step(s): start=%d end=%d step=%ds), after the first query over start=%d end=%d: %w",
 				i+2, c.Shifts[i], f.start, f.end, c.Step, c.Start, c.End, err)
 		}
 	}
-	return sh, nil
+	return sh, deferred
 }
 
 // sliceRanges mirrors the three lines of glue in rangeQuery.Run: fold the slice's samples into ranges, expand ends.
@@ -718,6 +732,9 @@ func genCase(t *rapid.T, kind string) Case {
 	}
 
 	ns := rapid.IntRange(1, 4).Draw(t, "nseries")
+	if rapid.IntRange(0, 2).Draw(t, "moreSeries") == 0 {
+		ns = rapid.IntRange(3, 4).Draw(t, "nseries2")
+	}
 	seriesLabels := rapid.Permutation(labelPool).Draw(t, "labelsets")[:ns]
 	// "confined" cases: every series lives in the interior of ONE slice (a few short islands), so that nothing
 	// continues across a slice boundary and no two ranges of the whole result can merge
@@ -809,6 +826,9 @@ func genCase(t *rapid.T, kind string) Case {
 		c.Hold = rapid.IntRange(0, 9).Draw(t, "hold") != 0
 		c.OrderKeys = keyGen.Draw(t, "order")
 		// ask the same client again: the same window, or one shifted by a few steps / a whole slice
+		if allConfined {
+			c.Shifts = append(c.Shifts, 0) // the very same window again: every slice now comes from the client's cache
+		}
 		for i, n := 0, rapid.IntRange(0, 2).Draw(t, "repeats"); i < n; i++ {
 			c.Shifts = append(c.Shifts, rapid.SampledFrom([]int{0, 0, 0, 1, 2, 3, -1, -2, int(L), -int(L)}).Draw(t, fmt.Sprintf("shift%d", i)))
 		}
@@ -838,7 +858,7 @@ func genCase(t *rapid.T, kind string) Case {
 // class predicate (a sample on a requested grid point before start) AND the failure must consist of nothing but
 // presence reported before start (errBeforeStart is only produced by judge's second comparison, never from text).
 func knownClass(sh shape, err error) string {
-	if sh.beforeStart && errors.Is(err, errBeforeStart) {
+	if (sh.beforeStart || sh.followBeforeStart) && errors.Is(err, errBeforeStart) {
 		return classBeforeStart
 	}
 	return ""
